@@ -75,7 +75,10 @@ fn run_history(h: &Hist, st: &mut Stats) -> Result<(), String> {
                     // refused, as required; nothing is reported as consumed or emitted
                     st.class("refused_after_end");
                 } else if was_terminated {
-                    return Err(at(format!("empty write after the end failed: {:?}", e)));
+                    // "any further write emits nothing": a refusal emits nothing either. Whether an empty write on a finished
+                    // body answers (0, 0) or an error is not stated
+                    let _ = e;
+                    st.class("empty_write_after_end_refused");
                 } else {
                     // the statement does not speak about refusals before the end; the history stops here
                     st.class("early_err");
@@ -321,7 +324,7 @@ Flow<SendBody>::write or Call<WithBody>::write (default chunked / explicit TE / 
 after every call the cumulative output is fed to \
 an incremental strict chunk decoder and must be whole non-empty chunks whose data equals the concatenated consumed \
 prefixes; terminator only from an empty write, at most once; finished() <=> terminator emitted; writes after the end: \
-non-empty refused, empty (0,0). enumeration 'grid': (input 0..40 [thorough 0..300]) x (output 0..64 [0..300]) x (finish \
+non-empty refused, empty (0,0) or refused - nothing emitted either way. enumeration 'grid': (input 0..40 [thorough 0..300]) x (output 0..64 [0..300]) x (finish \
 output 0..8) x 16 api/kind combinations (incl. the body state reached through Await100, Transfer-Encoding added before send-body-despite-method, Transfer-Encoding in another case, on two lines, next to a Content-Length). non-trivial = history with a finish and a write that left <= 5 bytes of space with \
 input pending or had an output < 6; distinct by decoded-choice digest.",
     assumptions: &[
